@@ -62,6 +62,51 @@ def oracle_truthful(blocks, b):
                 return False
     return True
 
+def derive_table(sizes, b, op):
+    """a bin table DERIVED from a binnify() output by ordinary pandas edits (copy, boolean filtering, .loc assignment,
+    reset_index, concat of pieces): what the result says is decided by its rows, not by where it came from"""
+    from cooler.util import binnify
+    names = names_for(len(sizes))
+    df = binnify(pd.Series(index=names, data=list(sizes), dtype=np.int64), b).copy()
+    if op == "fold-last":        # the short last bin of every chromosome with >= 3 bins is folded into its predecessor
+        keep = np.ones(len(df), dtype=bool)
+        for nm, L in zip(names, sizes):
+            idx = np.flatnonzero((df["chrom"] == nm).values)
+            if len(idx) >= 3:
+                keep[idx[-1]] = False
+                df.loc[df.index[idx[-2]], "end"] = L
+        df = df[keep].reset_index(drop=True)
+    elif op == "every-2nd":      # pairs of bins fused: a true 2b grid
+        pieces = []
+        for nm, L in zip(names, sizes):
+            g = df[df["chrom"] == nm]
+            g2 = g.iloc[::2].copy()
+            g2["end"] = list(g2["start"].values[1:]) + [L]
+            pieces.append(g2)
+        df = pd.concat(pieces, axis=0, ignore_index=True)
+    elif op == "drop-second":    # the second bin of the first chromosome with >= 3 bins is fused into the first one: variable widths
+        for nm, L in zip(names, sizes):
+            idx = np.flatnonzero((df["chrom"] == nm).values)
+            if len(idx) >= 3:
+                df.loc[df.index[idx[0]], "end"] = int(df["end"].iloc[idx[1]])
+                df = df.drop(df.index[idx[1]]).reset_index(drop=True)
+                break
+    elif op == "head":           # the last chromosome's rows filtered out (when there are several)
+        if len(sizes) >= 2:
+            df = df[df["chrom"] != names[-1]].reset_index(drop=True)
+    elif op == "identity":
+        df = df.copy()
+    else:
+        raise ValueError(op)
+    blocks = []
+    for ci, nm in enumerate(names):
+        g = df[df["chrom"].astype(str) == nm]
+        if len(g):
+            blocks.append([(len(blocks), int(s_), int(e)) for s_, e in zip(g["start"], g["end"])])
+    return df, blocks
+
+DERIVE_OPS = ["identity", "fold-last", "every-2nd", "drop-second", "head"]
+
 
 def run(ctx):
     from cooler.util import get_binsize, get_chromsizes
@@ -218,6 +263,41 @@ def run(ctx):
         if ics != [(i, blk[-1][2]) for i, blk in enumerate(blocks)]:
             ctx.fail(case, {"chromsizes": ics}, None)
 
+    # ------------------------------- 2b. tables derived from a binnify() output by pandas edits
+    dcases = [([12], 5), ([23, 17, 8], 5), ([30, 30], 10), ([25, 14], 4), ([9], 2), ([40, 7, 33], 8), ([16, 16], 4)]
+    for _ in range(30 if thorough else 8):
+        dcases.append(([rng.randint(5, 60) for _ in range(rng.randint(1, 3))], rng.randint(2, 12)))
+    dlist = []
+    for sizes, b in dcases:
+        for op in DERIVE_OPS:
+            df, blocks = derive_table(sizes, b, op)
+            bs = get_binsize(df)
+            dlist.append((sizes, b, op, blocks, None if bs is None else int(bs), df))
+    dexprs = []
+    for sizes, b, op, blocks, ibs, df in dlist:
+        t = C.lst([C.tup(C.z(c), C.z(s_), C.z(e)) for blk in blocks for (c, s_, e) in blk])
+        dexprs.append(f"get_binsize {t}")
+    dmodel = C.coq_eval("From Cooler Require Import Model.Bins.", dexprs, tmpdir=ctx.tmp / "derived")
+    ddir = ctx.tmp / "derived_coolers"
+    ddir.mkdir(exist_ok=True)
+    import cooler as _cooler
+    for k, ((sizes, b, op, blocks, ibs, df), mo) in enumerate(zip(dlist, dmodel)):
+        case = {"fn": "derived", "sizes": sizes, "binsize": b, "op": op}
+        ctx.case(case, nontrivial=any(len(b_) >= 2 for b_ in blocks), kind="derived:" + op)
+        ctx.dist["derived table:" + op] += 1
+        mbs = None if mo is None else mo[1]
+        ctx.compare("get_binsize(derived table)", case, ibs, mbs)
+        if ibs is not None and not oracle_truthful(blocks, ibs):
+            ctx.fail(case, {"reported_binsize": ibs, "widths": [[e - s_ for _, s_, e in blk] for blk in blocks]}, None)
+        if k % 3 == 0 or thorough:
+            uri = str(ddir / f"d{k}.cool")
+            _cooler.create_cooler(uri, df, {"bin1_id": np.array([0]), "bin2_id": np.array([0]), "count": np.array([1])})
+            clr = _cooler.Cooler(uri)
+            rep = None if clr.binsize is None else int(clr.binsize)
+            if rep != mbs or (rep is not None and not oracle_truthful(blocks, rep)) or clr.info.get("bin-type") != ("fixed" if mbs is not None else "variable"):
+                ctx.fail(case, {"Cooler.binsize": rep, "model": mbs, "bin-type": clr.info.get("bin-type")}, None)
+            os.remove(uri)
+
     # ------------------------------- 3. glue: makebins CLI, parse_bins, Cooler.binsize / info
     from click.testing import CliRunner
     from cooler.cli import cli
@@ -287,6 +367,10 @@ def run(ctx):
 
 def replay(ctx, case):
     from cooler.util import get_binsize, get_chromsizes
+    if case["fn"] == "derived":
+        df, blocks = derive_table(case["sizes"], case["binsize"], case["op"])
+        bs = get_binsize(df)
+        return bs is None or oracle_truthful(blocks, int(bs))
     if case["fn"] == "binnify" or case["fn"].startswith("makebins"):
         im = impl_binnify(case["sizes"], case["binsize"])
         return oracle_binnify(case["sizes"], case["binsize"], im)
